@@ -479,6 +479,11 @@ impl Ctx {
                     if self.is_known(&f) {
                         continue;
                     }
+                    // development aid (census of failure sites): record without shrinking and keep going
+                    if std::env::var("VERIF_CENSUS").is_ok() {
+                        self.violation(stage, &f, &v);
+                        continue;
+                    }
                     // shrink (statistics frozen for this shard's remaining executions)
                     set_frozen(true);
                     let mut best = (v, f);
@@ -567,6 +572,12 @@ impl Ctx {
         V: Serialize + DeserializeOwned + Debug,
         F: Fn(&V, &Stats) -> CaseResult + Sync,
     {
+        // development aid (never set by registered commands): run a single stage
+        if let Ok(only) = std::env::var("VERIF_ONLY_STAGE") {
+            if only != stage && self.worker.is_none() {
+                return;
+            }
+        }
         // worker child: run only our shard of the named stage
         if let Some(w) = &self.worker {
             if w.stage != stage {
